@@ -3,8 +3,7 @@
 From Coq Require Import List NArith Bool.
 From SNT Require Import Base.Outcome Automata.Regex Automata.NFA Automata.Build Automata.Compile
   Automata.BuildLeaves Automata.BuildProofs Automata.CompileSpec Automata.CompileProofs Automata.BuildKeys
-  Automata.C15Main Automata.RegexProofs Automata.CompileTotal.
-From SNT Require Automata.ProdInstances Gen.ProdNFA Gen.ProdDFA.
+  Automata.C15Main Automata.RegexProofs Automata.CompileTotal Automata.CompileFast Automata.CompileFastProofs.
 Import ListNotations.
 Local Open Scope N_scope.
 
@@ -118,25 +117,12 @@ Theorem C15_isempty : forall e : regex,
   (isempty e = true -> forall s, ~ matches e s) /\ (isempty e = false -> exists s, matches e s).
 Proof. exact isempty_correct. Qed.
 
-(* The production automata of src/decoder.rs (anchor decoder.rs:457-1028): each
-   compiled DFA, as dumped from the running code on this run, is the subset
-   construction of the NFA it was compiled from, as dumped right before
-   compile(): running the DFA on any byte string is dead exactly when no NFA
-   state is reachable, otherwise accepting / tags / terminal are those of the
-   set of reachable NFA states.  Translation validation: a verified certificate
-   checker (Automata/ProdCheck.v, ProdCheckProofs.check_sound) evaluated on the
-   regenerated instances by vm_compute. *)
-Theorem C15_production_event :
-  ProdInstances.subset_construction ProdNFA.event_nfa_data ProdDFA.event_data.
-Proof. exact ProdInstances.event_subset_construction. Qed.
-
-Theorem C15_production_command :
-  ProdInstances.subset_construction ProdNFA.command_nfa_data ProdDFA.command_data.
-Proof. exact ProdInstances.command_subset_construction. Qed.
-
-Theorem C15_production_utf8 :
-  ProdInstances.subset_construction ProdNFA.utf8_nfa_data ProdDFA.utf8_data.
-Proof. exact ProdInstances.utf8_subset_construction. Qed.
+(* The efficient rendering used to evaluate the model under vm_compute (binary
+   NFA state ids, positive-map lookup) is the reference model: equal results for
+   every NFA and every fuel, including Panic / OutOfFuel. *)
+Theorem C15_compile_fast : forall (fuel cf : nat) (n : nfa),
+  compile_fast fuel cf n = compile fuel cf n.
+Proof. exact compile_fast_eq. Qed.
 
 Check C15_main : forall (e : regex) (fuel cf : nat) (d : dfa),
   compile fuel cf (build e) = Ok d ->
